@@ -49,7 +49,9 @@ INPUTS = {
     "arguments_subscription": dict(schema="enum Kind { A B }\ninput In { a: Int k: Kind nested: In }\ntype T { id: ID! k: Kind }\ntype Query { f(i: In, k: Kind, n: Int! = 3): T fs(ids: [ID!]!): [T!] }\n"
                                           "type Mutation { m(i: In!): T! }\ntype Subscription { tick(k: Kind): T! }\n",
                                    queries="query F($i: In, $k: Kind, $n: Int! = 3) { f(i: $i, k: $k, n: $n) { id k } }\nquery Fs($ids: [ID!]!) { fs(ids: $ids) { id } }\n"
-                                           "mutation M($i: In!) { m(i: $i) { id } }\nsubscription Tick($k: Kind) { tick(k: $k) { id } }\n"),
+                                           "mutation M($i: In!) { m(i: $i) { id } }\nsubscription Tick($k: Kind) { tick(k: $k) { id } }\n"
+                                           "query Locals($query: Int!, $data: Kind, $variables: In, $response: Int) { f(n: $query, k: $data, i: $variables) { id } lim: f(n: $response) { id } }\n"
+                                           "mutation LocalsM($query: In!, $Data: In!) { m(i: $query) { id } m2: m(i: $Data) { id } }\n"),
 }
 
 
@@ -87,7 +89,7 @@ def kwargs_for(op, mod):
             continue
         vn = v.variable.name.value
         islist = "[" in __import__("graphql").print_ast(v.type)
-        val = {"ID": "id1", "Int": 1, "String": "s"}.get(name)
+        val = {"ID": "id1", "Int": 2, "String": "s"}.get(name)
         if name == "In":
             val = mod.In(a=1)  # mod = input_types module
         kw[vn] = [val] if islist else val
